@@ -30,7 +30,10 @@ CONFIGS = {
     'bool_nu': ('vf::act_bool',  'bool',  'vf::lcontrol_nu', False, 2),
     'void0':   ('vf::act0_void', 'void0', 'vf::lcontrol',    True,  0),
     'bool0':   ('vf::act0_bool', 'bool0', 'vf::lcontrol',    True,  2),
+    'mustif':  ('tao::pegtl::nothing', None, 'vf::mi_control', True, 0),
+    'mustif_bool': ('vf::act_bool', 'bool', 'vf::mi_control', True, 2),
 }
+ROF = {'mustif': (1, 101), 'mustif_bool': (1, 101)}
 
 
 def queries(ctx, prefix, grammars, configs, N, K=3, modes=('ar', 'ao', 'nr'), includes=(), preamble='', action_unwind=True, known=None, split_modes=False,
@@ -53,7 +56,7 @@ def queries(ctx, prefix, grammars, configs, N, K=3, modes=('ar', 'ao', 'nr'), in
             em = opts.get('evmax', evmax)
             h = ctx.write('h_%s_%s%s.c' % (gname, tag, '_lazy' if lazy else ''),
                           evgen.harness_text(gtext, wrappers, n, K, doc, action=kind, unwind=unw, maxres=opts.get('maxres', maxres), vetomax=vmax,
-                                             evmax=em, action_unwind=action_unwind, reach=reach, lazy=lazy))
+                                             evmax=em, action_unwind=action_unwind, reach=reach, lazy=lazy, rof=ROF.get(tag, ())))
             for m in modes:
                 qs.append(vf.Query('%s%s/%s/%s' % (gname, '.lazy' if lazy else '', tag, m), unit, h, unwind=n + 3, mem_gb=opts.get('mem_gb', 2),
                                    unwindset=['ev_setup.1:13', 'ev_setup.0:%d' % (n + 2), 'ev_compare.0:%d' % (em + 1)],
